@@ -12,7 +12,7 @@ RULE = ("g directions uniform on the sphere plus a stratum within 0.3 rad of the
         "or direction not along an axis; distinct = distinct (g, 2theta, chi, wedge)")
 ASSUMPTIONS = ["rotation matrices of the oracle are the documented ones, written in the harness: Rz; Rx(chi)Ry(wedge)Rz; P Rz P' with P=Rx(wx)Ry(wy); Ry(-wedge)Rz",
                "solution count is judged only when |discriminant| > 1e-6 (a^2+b^2), as the property states",
-               "tolerance 1e-9 sin(theta) on the x component, 1e-8 sin(theta) on y,z"]
+               "tolerance 1e-9 sin(theta) on the x component (what the quadratic solves), 1e-6 sin(theta) on y,z: find_omega_wedge obtains eta from arccos of a quantity within 1e-9 of 1 at low angles near tangency, which limits eta to ~1e-7 rad there; agreement between solvers is judged on omega weighted with the part of g perpendicular to the axis"]
 FLOORS = {}
 for _m in ("tools", "laue"):
     for _f in ("find_omega", "find_omega_general", "find_omega_quart", "find_omega_wedge", "tth", "tth2"):
@@ -65,7 +65,7 @@ def judge(mon, name, omegas, etas, g, twoth, omega_mat, P, gprime=None):
             e = et[i]
             want = np.array([-math.sin(twoth) * math.sin(e) / 2, math.sin(twoth) * math.cos(e) / 2])
             r = float(np.max(np.abs(v[1:] - want)))
-            mon.check(name, bool(np.isfinite(e)) and r <= 1e-8 * st, residual=r / st, observed=v[1:], expected=want,
+            mon.check(name, bool(np.isfinite(e)) and r <= 1e-6 * st, residual=r / st, observed=v[1:], expected=want,
                       detail={"omega": w, "eta": e})
     n = expected_count(P, g if gprime is None else gprime)
     if n is not None:
@@ -239,23 +239,28 @@ def case_solve(ctx, p):
         P = oracle.Rx(chi) @ oracle.Ry(wedge)
         if expected_count(P, g) is None:
             continue
+        # an omega difference moves the rotated vector by |d_omega| x (part of g perpendicular to the axis): for g almost
+        # along the axis omega is ill-determined, so the difference is weighted with that part (and never tighter than 1e-6)
+        axis = P @ np.array([0.0, 0.0, 1.0])
+        perp = float(np.linalg.norm(d - float(d @ axis) * axis))
+        wtol = 1e-6 / max(perp, 1e-3) + 1e-6
         if (m, "wedge") in res:
             a = _as_set(*res[m, "general"])
             b = _as_set(*res[m, "wedge"])
-            ok = len(a) == len(b) and all(abs(math.remainder(x[0] - y[0], 2 * math.pi)) < 1e-6 and
-                                          abs(math.remainder(x[1] - y[1], 2 * math.pi)) < 1e-6 for x, y in zip(a, b))
+            ok = len(a) == len(b) and all(abs(math.remainder(x[0] - y[0], 2 * math.pi)) < wtol and
+                                          abs(math.remainder(x[1] - y[1], 2 * math.pi)) < 1e-5 for x, y in zip(a, b))
             mon.check("workload:%s.find_omega_general(chi=0,w) = find_omega_wedge(-w)" % m, ok, observed=a, expected=b)
         if (m, "plain") in res:
             a = sorted(round(float(w), 7) for w in res[m, "general"][0])
             for other in ("quart", "wedge", "plain"):
                 om = res[m, other] if other == "plain" else res[m, other][0]
                 b = sorted(round(float(w), 7) for w in om)
-                ok = len(a) == len(b) and all(abs(math.remainder(x - y, 2 * math.pi)) < 1e-6 for x, y in zip(a, b))
+                ok = len(a) == len(b) and all(abs(math.remainder(x - y, 2 * math.pi)) < wtol for x, y in zip(a, b))
                 mon.check("workload:%s solvers agree at zero tilt" % m, ok, observed=b, expected=a, detail=other)
             ea = sorted(round(float(e), 7) for e in res[m, "general"][1])
             for other in ("quart", "wedge"):
                 eb = sorted(round(float(e), 7) for e in res[m, other][1])
-                ok = len(ea) == len(eb) and all(abs(math.remainder(x - y, 2 * math.pi)) < 1e-6 for x, y in zip(ea, eb))
+                ok = len(ea) == len(eb) and all(abs(math.remainder(x - y, 2 * math.pi)) < 1e-5 for x, y in zip(ea, eb))
                 mon.check("workload:%s solvers agree at zero tilt" % m, ok, observed=eb, expected=ea, detail=other + " eta")
 
 
